@@ -10,6 +10,7 @@ the user's constants, LIMIT counts and the time-series window symbolic.
 """
 import itertools
 import copy
+import re
 import z3
 from mindsdb_sql.parser import ast as A
 
@@ -474,10 +475,13 @@ class Evaluator:
     def project(self, q, src, hidden):
         tc = self.target_cols(q, src, hidden)
         rows = []
-        for p, cs in src.rows:
+        for idx, (p, cs) in enumerate(src.rows):
             vals = []
             for col, e in tc:
-                vals.append(cs[e] if isinstance(e, int) else self.expr(e, src, (p, cs)))
+                if isinstance(e, A.WindowFunction):
+                    vals.append(self.window(e, src, idx))
+                else:
+                    vals.append(cs[e] if isinstance(e, int) else self.expr(e, src, (p, cs)))
             rows.append((p, vals))
         rel = Rel([c for c, _ in tc], rows)
         rel._src_rows = src.rows
@@ -518,47 +522,8 @@ class Evaluator:
         ties leave the order to the engine's discretion and are outside the claim).  The rank of each row is kept in rel._ranks."""
         n = len(out.rows)
         if q.order_by:
-            keys = []
-            for idx, (p, cs) in enumerate(out.rows):
-                ks = []
-                for ob in q.order_by:
-                    f = ob.field
-                    c = None
-                    if isinstance(f, A.Constant) and isinstance(f.value, int):
-                        c = cs[f.value - 1]
-                    else:
-                        try:
-                            c = self.expr(f, out, (p, cs))
-                        except Unsupported:
-                            if src is None:
-                                raise
-                            srel = Rel(src.cols, [])
-                            srel.inner_width = getattr(src, 'inner_width', None)
-                            c = self.expr(f, srel, src.rows[idx])
-                    desc = str(ob.direction).upper() == 'DESC'
-                    nulls = str(getattr(ob, 'nulls', 'default')).upper()
-                    if 'FIRST' in nulls:
-                        nulls_first = True
-                    elif 'LAST' in nulls:
-                        nulls_first = False
-                    else:
-                        nulls_first = (not desc) if self.null_order == 'low' else desc
-                    ks.append((c, desc, nulls_first))
-                keys.append(ks)
-
-            def key_eq(ci, cj):
-                return z3.Or(z3.And(ci[0], cj[0]), z3.And(z3.Not(ci[0]), z3.Not(cj[0]), ci[1] == cj[1]))
-
-            def before(i, j):
-                # row i sorts strictly before row j (lexicographic over keys, NULL placement per key)
-                res = FALSE
-                eq = TRUE
-                for (ci, d, nf), (cj, _, _) in zip(keys[i], keys[j]):
-                    vlt = (ci[1] > cj[1]) if d else (ci[1] < cj[1])
-                    lt = z3.If(ci[0], z3.If(cj[0], FALSE, z3.BoolVal(nf)), z3.If(cj[0], z3.BoolVal(not nf), vlt))
-                    res = z3.Or(res, z3.And(eq, lt))
-                    eq = z3.And(eq, key_eq(ci, cj))
-                return res
+            keys = self.sort_keys(q.order_by, out, src)
+            key_eq, before = self._key_eq, (lambda i, j: self._before(keys, i, j))
             for i in range(n):
                 for j in range(i + 1, n):
                     both = z3.And(out.rows[i][0], out.rows[j][0])
@@ -586,6 +551,122 @@ class Evaluator:
         if getattr(out, '_unordered_limit', False):
             rel._unordered_limit = True
         return rel
+
+    def sort_keys(self, order_by, out, src=None):
+        """per row of `out`: [(key cell, descending?, nulls first?)] for the ordering terms (positions, output columns, or -
+        when `src` is given - columns of the rows the output was projected from)"""
+        keys = []
+        for idx, (p, cs) in enumerate(out.rows):
+            ks = []
+            for ob in order_by:
+                f = ob.field
+                c = None
+                if isinstance(f, A.Constant) and isinstance(f.value, int):
+                    c = cs[f.value - 1]
+                else:
+                    try:
+                        c = self.expr(f, out, (p, cs))
+                    except Unsupported:
+                        if src is None:
+                            raise
+                        srel = Rel(src.cols, [])
+                        srel.inner_width = getattr(src, 'inner_width', None)
+                        c = self.expr(f, srel, src.rows[idx])
+                desc = str(ob.direction).upper() == 'DESC'
+                nulls = str(getattr(ob, 'nulls', 'default')).upper()
+                if 'FIRST' in nulls:
+                    nulls_first = True
+                elif 'LAST' in nulls:
+                    nulls_first = False
+                else:
+                    nulls_first = (not desc) if self.null_order == 'low' else desc
+                ks.append((c, desc, nulls_first))
+            keys.append(ks)
+        return keys
+
+    @staticmethod
+    def _key_eq(ci, cj):
+        return z3.Or(z3.And(ci[0], cj[0]), z3.And(z3.Not(ci[0]), z3.Not(cj[0]), ci[1] == cj[1]))
+
+    def _before(self, keys, i, j):
+        """row i sorts strictly before row j (lexicographic over keys, NULL placement per key)"""
+        res = FALSE
+        eq = TRUE
+        for (ci, d, nf), (cj, _, _) in zip(keys[i], keys[j]):
+            vlt = (ci[1] > cj[1]) if d else (ci[1] < cj[1])
+            lt = z3.If(ci[0], z3.If(cj[0], FALSE, z3.BoolVal(nf)), z3.If(cj[0], z3.BoolVal(not nf), vlt))
+            res = z3.Or(res, z3.And(eq, lt))
+            eq = z3.And(eq, self._key_eq(ci, cj))
+        return res
+
+    def _peers(self, keys, i, j):
+        return z3.And([self._key_eq(a[0], b[0]) for a, b in zip(keys[i], keys[j])]) if keys[i] else TRUE
+
+    # ---- window functions -----------------------------------------------------------------------
+    _FRAME = re.compile(r'^(rows|range)\s+between\s+(unbounded\s+preceding|current\s+row)\s+and\s+(unbounded\s+following|current\s+row)$', re.I)
+
+    def window(self, wf, src, idx):
+        """value of `fn(..) OVER ([PARTITION BY ..] [ORDER BY ..] [frame])` for row idx of `src` (the rows after WHERE).
+        Ranking: row_number (order keys of the partition assumed tie-free), rank, dense_rank.  Aggregates count/sum/min/max over the
+        frame: whole partition without ORDER BY, else RANGE UNBOUNDED PRECEDING..CURRENT ROW (peers included), or the written
+        ROWS/RANGE BETWEEN <unbounded preceding|current row> AND <current row|unbounded following> (ROWS: tie-free assumed)."""
+        if not isinstance(wf.function, A.Function):
+            raise Unsupported('window over %s' % type(wf.function).__name__)
+        fn = wf.function.op.lower()
+        rows = src.rows
+        n = len(rows)
+        pk = [[self.expr(k, src, r) for k in (wf.partition or [])] for r in rows]
+        inpart = [z3.And(rows[j][0], row_eq(pk[idx], pk[j])) for j in range(n)]
+        srel = Rel(src.cols, rows)
+        srel.inner_width = getattr(src, 'inner_width', None)
+        keys = self.sort_keys(wf.order_by, srel) if wf.order_by else [[] for _ in rows]
+        before = lambda i, j: self._before(keys, i, j)      # noqa
+        me = rows[idx][0]
+
+        def tie_free():
+            for j in range(n):
+                if j != idx:
+                    self.assumptions.append(z3.Implies(z3.And(me, inpart[j]), z3.Not(self._peers(keys, idx, j))))
+        if fn == 'row_number':
+            if not wf.order_by:
+                raise Unsupported('row_number() without ORDER BY')
+            tie_free()
+            return (FALSE, 1 + z3.Sum([z3.If(z3.And(inpart[j], before(j, idx)), 1, 0) for j in range(n) if j != idx] + [z3.IntVal(0)]))
+        if fn == 'rank':
+            return (FALSE, 1 + z3.Sum([z3.If(z3.And(inpart[j], before(j, idx)), 1, 0) for j in range(n) if j != idx] + [z3.IntVal(0)]))
+        if fn == 'dense_rank':
+            terms = [z3.IntVal(0)]
+            for j in range(n):
+                if j == idx:
+                    continue
+                first_of_peers = z3.Not(z3.Or([z3.And(inpart[k], self._peers(keys, k, j)) for k in range(j)])) if j else TRUE
+                terms.append(z3.If(z3.And(inpart[j], before(j, idx), first_of_peers), 1, 0))
+            return (FALSE, 1 + z3.Sum(terms))
+        if fn in ('count', 'sum', 'min', 'max'):
+            mod = (getattr(wf, 'modifier', None) or '').strip()
+            if mod:
+                m = self._FRAME.match(mod)
+                if not m:
+                    raise Unsupported('window frame %r' % mod)
+                unit, lo, hi = m.group(1).lower(), m.group(2).lower().split()[0], m.group(3).lower().split()[0]
+                if unit == 'rows':
+                    if not wf.order_by:
+                        raise Unsupported('ROWS frame without ORDER BY')
+                    tie_free()
+            elif wf.order_by:
+                unit, lo, hi = 'range', 'unbounded', 'current'
+            else:
+                unit, lo, hi = 'range', 'unbounded', 'unbounded'
+            frame = []
+            for j in range(n):
+                ok = inpart[j]
+                if lo == 'current' and j != idx:
+                    ok = z3.And(ok, z3.Not(before(j, idx)))
+                if hi == 'current' and j != idx:
+                    ok = z3.And(ok, z3.Not(before(idx, j)))
+                frame.append((ok, rows[j][1]))
+            return self.aggregate(fn, wf.function, srel, frame)
+        raise Unsupported('window function %s' % fn)
 
     def count_value(self, node):
         if node is None:
